@@ -26,7 +26,7 @@ pub struct Findings {
 
 impl Findings {
     pub fn load_default() -> Findings {
-        Findings::load(&Path::new(crate::VERIF_ROOT).join("KNOWN_FINDINGS.txt"))
+        Findings::load(&crate::verif_root().join("KNOWN_FINDINGS.txt"))
     }
 
     pub fn load(path: &Path) -> Findings {
